@@ -9,8 +9,10 @@ import (
 	"path/filepath"
 	"runtime"
 	"sort"
+	"strconv"
 	"strings"
 	"sync"
+	"syscall"
 	"time"
 )
 
@@ -605,7 +607,12 @@ func runSolver(ctx context.Context, sp solverSpec, file string, timeoutMs int) S
 	args := sp.args(file, timeoutMs)
 	cctx, cancel := context.WithTimeout(ctx, time.Duration(timeoutMs+2000)*time.Millisecond)
 	defer cancel()
+	// `timeout -k` makes the solver process end by itself even if this process is killed first (a solver's own -t is unreliable)
+	args = append([]string{"timeout", "-k", "2", strconv.Itoa(timeoutMs/1000 + 5)}, args...)
 	cmd := exec.CommandContext(cctx, args[0], args[1:]...)
+	cmd.SysProcAttr = &syscall.SysProcAttr{Setpgid: true}
+	cmd.Cancel = func() error { return syscall.Kill(-cmd.Process.Pid, syscall.SIGKILL) } // the whole group: timeout + solver
+	cmd.WaitDelay = 2 * time.Second
 	var out bytes.Buffer
 	cmd.Stdout = &out
 	cmd.Stderr = &out
